@@ -274,6 +274,14 @@ pub fn run_history(cx: &mut Ctx, fam: &Family, start: &R, steps: &[Step]) -> usi
                 }
                 state = expected;
                 if let R::Uf(pm) = r {
+                    let keys: std::collections::BTreeSet<u8> = pm.iter().map(|e| e.0).collect();
+                    if keys.len() < pm.len() {
+                        cx.rep.count("c04_uf_multi_edge_merges");
+                        cx.rep.count(&format!("c04_uf_multi_edge_merges_via:{}", fam.other_names[*oi]));
+                        if si == 0 && norm(start).is_bot() && matches!(start, R::Uf(x) if x.is_empty()) {
+                            cx.rep.count("c04_uf_multi_edge_first_step_into_empty");
+                        }
+                    }
                     for &(a, b) in pm {
                         mentioned.push(a);
                         mentioned.push(b);
@@ -425,7 +433,7 @@ pub fn replay_history(cx: &mut Ctx, fam: &Family, v: &Value) {
 fn random_step(rng: &mut Rng, fam: &Family, vals: &[R], is_uf: bool) -> Step {
     let no = fam.other_names.len();
     let ns = fam.mk.len();
-    let k = rng.below(if is_uf { 14 } else { 10 });
+    let k = rng.below(if is_uf { 17 } else { 10 });
     match k {
         0 if ns > 1 => {
             let a = rng.below(ns);
@@ -434,6 +442,21 @@ fn random_step(rng: &mut Rng, fam: &Family, vals: &[R], is_uf: bool) -> Step {
         1 => Step::Via(rng.below(no)),
         10 | 11 => Step::Union(rng.below(7) as u8, rng.below(7) as u8),
         12 | 13 => Step::Same(rng.below(7) as u8, rng.below(7) as u8),
+        14..=16 => {
+            // multi-edge delta: the same item listed 2-3 times with different parents, held by a
+            // Vec-/array-backed representation
+            let c = rng.below(8) as u8;
+            let np = 2 + rng.below(2);
+            let mut ps: Vec<u8> = (0..8u8).collect();
+            rng.shuffle(&mut ps);
+            let mut pm: Vec<(u8, u8)> = ps[..np].iter().map(|&p| (c, p)).collect();
+            if rng.chance(1, 3) {
+                pm.push((rng.below(8) as u8, rng.below(8) as u8));
+            }
+            let r = R::Uf(pm);
+            let cands: Vec<usize> = (0..no).filter(|&i| (fam.other_can[i])(&r)).collect();
+            Step::Merge(*rng.choose(&cands), r)
+        }
         _ => {
             let r = rng.choose(vals).clone();
             // prefer an other-representation that can hold the value
@@ -524,4 +547,67 @@ pub fn c04_uf_exhaustive(cx: &mut Ctx, fam: &Family) {
             cx.rep.count("c04_uf_exhaustive_histories");
         }
     }
+}
+
+/// Union-find: merge-in deltas that list the same item 2-3 times with different parents (legal for
+/// Vec-/array-backed representations: Merge reads the map as a list of union edges). Every history of
+/// two steps over {all such deltas over 4 items} + {all unions}, from the empty union-find and from a
+/// non-empty one, each delta through every representation that can hold it.
+pub fn c04_uf_multi_edge(cx: &mut Ctx, fam: &Family) {
+    let mut deltas: Vec<R> = vec![];
+    for c in 0..4u8 {
+        for a in 0..4u8 {
+            for b in 0..4u8 {
+                if a == b {
+                    continue;
+                }
+                deltas.push(R::Uf(vec![(c, a), (c, b)]));
+                for d in 0..4u8 {
+                    if d != a && d != b && (a < b && b < d || cx.args.tier == vcommon::Tier::Thorough) {
+                        deltas.push(R::Uf(vec![(c, a), (c, b), (c, d)]));
+                    }
+                }
+            }
+        }
+    }
+    let no = fam.other_names.len();
+    let mut alphabet: Vec<Step> = vec![];
+    for d in &deltas {
+        for oi in 0..no {
+            if (fam.other_can[oi])(d) {
+                alphabet.push(Step::Merge(oi, d.clone()));
+            }
+        }
+    }
+    let n_delta_steps = alphabet.len();
+    for a in 0..4u8 {
+        for b in a + 1..4 {
+            alphabet.push(Step::Union(if (a + b) % 2 == 0 { a } else { b }, if (a + b) % 2 == 0 { b } else { a }));
+        }
+    }
+    let starts = [R::Uf(vec![]), R::Uf(vec![(1, 0)]), R::Uf(vec![(3, 2), (2, 2)])];
+    let mut idx = 0usize;
+    for start in &starts {
+        for (i, s1) in alphabet.iter().enumerate() {
+            // single-step history (delta is the first and only step)
+            if i < n_delta_steps {
+                run_history(cx, fam, start, std::slice::from_ref(s1));
+            }
+            for (j, s2) in alphabet.iter().enumerate() {
+                if i >= n_delta_steps && j >= n_delta_steps {
+                    continue; // union-only histories are covered elsewhere
+                }
+                idx += 1;
+                // quick tier: every third two-step history (all single-step ones run above)
+                if cx.args.tier != vcommon::Tier::Thorough && idx % 3 != 0 {
+                    continue;
+                }
+                if cx.miri() && idx % 5000 != 0 {
+                    continue;
+                }
+                run_history(cx, fam, start, &[s1.clone(), s2.clone()]);
+            }
+        }
+    }
+    cx.rep.count_n("c04_uf_multi_edge_delta_alphabet", n_delta_steps as u64);
 }
